@@ -1313,7 +1313,7 @@ func init() {
 	// class definitions while calls are in flight (fixed shapes): a superclass
 	// removed and added again, new classes only, two superclasses reordered
 	cd := func(ar int, pre []string, thr ...[]string) {
-		for k := 0; k < 16; k++ {
+		for k := 0; k < 32; k++ {
 			probes = append(probes, Case{Kind: "cdag", Fam: "dag", Ar: ar, Note: "cdag-probe", Pre: pre, Thr: thr, PSeed: uint64(3000 + k)})
 		}
 	}
